@@ -112,11 +112,13 @@ def check(run):
         run.check('operation_aborted' not in a and 'error_code{}' in a.replace(' ', ''), 'R4', 'fire-success', S + '::run', rn.loc(f), 'run() fires with ' + a, 'fires with success')
     import p12
     p12.remove_timer_rule(run)
+    run.clause('R16 the timer-queue mutex is never re-locked by a callee while held (run() fires timers under the guard)')
+    engines.r16_no_relock(run)
     run.clause('a timer whose expiry has passed fires at the current time: the clock is never advanced by a negative duration (shared with C02)')
     import p02
     p02.nonneg_advance_rule(run)
-    run.floor('R4', 14)
-    run.floor('R2', 10)
+    run.floor('R4', 9)
+    run.floor('R2', 7)
 
 
 
@@ -149,16 +151,20 @@ def sortedness_rules(run):
         if dl and q.on_all_paths(fn, dl) and all(is_node(r.get('e')) and any(x is d for d in dl for x in walk(r['e'])) for r in q.returns(fn)):
             run.ok('R4', 'rearm-delegates', T + '::' + name, fn.loc(), 'delegates to %s on every path and returns its count' % sib.split('::')[-1])
             continue
-        keyw = [a.site for a in q.field_accesses(fn, {T + '::m_expiration_time'}) if a.kind == 'assign']
-        cancels = calls(fn, 'high_resolution_timer::cancel')
-        run.check(bool(keyw) and all(q.any_precedes(fn, cancels, w) for w in keyw), 'R4', 'cancel-before-key-write', T + '::' + name, fn.loc(),
+        ev_key = lambda f: [a.site for a in q.field_accesses(f, {T + '::m_expiration_time'}) if a.kind == 'assign' and q.is_this(q.access_root(a.node))]
+        ev_cancel = lambda f: calls(f, 'high_resolution_timer::cancel')
+        ev_false = lambda f: exp_writes(f, False)
+        ev_add = lambda f: [c for c in calls(f, 'io_context::add_timer') if c.get('args') and q.is_this(c['args'][0])]
+        # each event may sit in fn itself or in a helper fn calls on its own object (q.each_*)
+        ok, n = q.each_preceded(fn, ev_cancel, ev_key)
+        run.check(n > 0 and ok, 'R4', 'cancel-before-key-write', T + '::' + name, fn.loc(),
                   'the expiry (sort key of the timer queue) is written while the timer may still be queued: no cancel() dominates the write',
                   'cancel() dominates the write of m_expiration_time')
-        falses = exp_writes(fn, False)
-        adds = [c for c in calls(fn, 'io_context::add_timer') if c.get('args') and q.is_this(c['args'][0])]
-        run.check(bool(falses) and all(q.must_follow(fn, f, adds) for f in falses), 'R4', 'unexpired-implies-queued', T + '::' + name, fn.loc(),
+        ok, n = q.each_followed(fn, ev_false, ev_add)
+        run.check(n > 0 and ok, 'R4', 'unexpired-implies-queued', T + '::' + name, fn.loc(),
                   'm_expired=false is not followed by add_timer(this) on every path (timer marked pending but not queued)', 'm_expired=false is followed by add_timer(this)')
-        run.check(all(q.any_precedes(fn, falses, a) for a in adds) and bool(adds), 'R4', 'queued-implies-unexpired', T + '::' + name, fn.loc(),
+        ok, n = q.each_preceded(fn, ev_false, ev_add)
+        run.check(n > 0 and ok, 'R4', 'queued-implies-unexpired', T + '::' + name, fn.loc(),
                   'add_timer(this) without a preceding m_expired=false', 'add_timer(this) is preceded by m_expired=false')
         # return value is cancel()'s count
         rets = q.returns(fn)
